@@ -76,24 +76,37 @@ def modelOracle (gs : Graph) (reports : List Report) : Option String :=
   else if cyc.isEmpty && !reports.isEmpty then some "a report for an acyclic graph"
   else none
 
-/-- one containment case; `runModel = false` (dense-big only): the expectation is what the property demands for an
-    acyclic graph, the detector model is not run -/
-def emitGraph (o : Out) (fam : String) (g : GSpec) (runModel : Bool := true) : IO Unit := do
+/-- one containment case; `checkSpec`: also run the detector as it was before dd206d7 (it walks every simple path, so
+    only on graphs where that is affordable) and emit a K line if its reports differ (`prune_preserves_reports`) -/
+def emitGraph (o : Out) (fam : String) (g : GSpec) (checkSpec : Bool := true) : IO Unit := do
   let p := programOfGraph g
   let gs := graphOfSpec g
   let texts := textOf p
   let cyc := onCycle (edges gs) gs.length
-  if runModel then
-    let gm := graphOfProgram p
-    if gm != gs then
-      o.line (tab ["K", "C05", fam, "|".intercalate (texts.map hexOfString), "graphOfProgram differs from the generated graph"])
-    let reports := detectCycles gm
-    match modelOracle gs reports with
-    | some why => o.line (tab ["K", "C05", fam, "|".intercalate (texts.map hexOfString), why])
-    | none => pure ()
-    o.line (compileCase fam "c05:cycles" "-" texts (cyclesS gm reports (e019s p) cyc))
-  else
-    o.line (compileCase fam "c05:cycles" "-" texts (cyclesS gs [] [] cyc))
+  let gm := graphOfProgram p
+  if gm != gs then
+    o.line (tab ["K", "C05", fam, "|".intercalate (texts.map hexOfString), "graphOfProgram differs from the generated graph"])
+  let st := detectE (edges gm) gm.length
+  let reports := st.reports
+  if st.exhausted then
+    o.line (tab ["K", "C05", fam, "|".intercalate (texts.map hexOfString), "the detector model ran out of fuel"])
+  match modelOracle gs reports with
+  | some why => o.line (tab ["K", "C05", fam, "|".intercalate (texts.map hexOfString), why])
+  | none => pure ()
+  if checkSpec && (detectUnpruned (edges gm) gm.length).reports != reports then
+    o.line (tab ["K", "C05", fam, "|".intercalate (texts.map hexOfString), "the reports differ from those of the detector without the skip rule"])
+  if cyc.isEmpty && st.steps != ((List.range gm.length).map fun i => (edges gm i).length).sum then
+    o.line (tab ["K", "C05", fam, "|".intercalate (texts.map hexOfString), "acyclic graph, but the number of steps is not the number of edges"])
+  o.line (compileCase fam "c05:cycles" "-" texts (cyclesS gm reports (e019s p) cyc))
+
+/-- a containment case whose expectation is only the verdict (`accepted` / `rejected`): the detector model is NOT run
+    (on the complete digraph it enumerates every simple cycle, like the code); the verdict is `rejected` exactly when some
+    type contains itself (`Props/C05.exact_acyclic`) -/
+def emitVerdict (o : Out) (fam : String) (g : GSpec) : IO Unit := do
+  let p := programOfGraph g
+  let gs := graphOfSpec g
+  let cyc := onCycle (edges gs) gs.length
+  o.line (compileCase fam "c05:verdict" "-" (textOf p) (if cyc.isEmpty then "accepted" else "rejected"))
 
 /-! ## families -/
 
@@ -121,6 +134,26 @@ def graphOfMask (n mask w kinds : Nat) : GSpec :=
 def denseGraph (n : Nat) : GSpec :=
   (List.range n).map fun i =>
     { isEnum := false, fields := ((List.range n).filter (· > i)).map fun j => CTy.node j }
+
+/-- the complete digraph: struct `i` has an optional field of every struct `j ≠ i` -/
+def completeGraph (n : Nat) : GSpec :=
+  (List.range n).map fun i =>
+    { isEnum := false, fields := ((List.range n).filter (· != i)).map fun j => CTy.opt (.node j) }
+
+/-- the dense DAG whose last struct has an optional field of the first (`Props/C05.cyclic_steps_exponential`) -/
+def denseBackGraph (n : Nat) : GSpec :=
+  (List.range n).map fun i =>
+    { isEnum := false,
+      fields := (((List.range n).filter (· > i)).map fun j => CTy.node j) ++ (if i + 1 == n then [CTy.opt (.node 0)] else []) }
+
+/-- `k` layers of complete digraphs on `m` nodes chained by single forward edges, plus a dense acyclic part: many
+    cycles, all short -/
+def clustersGraph (k m : Nat) : GSpec :=
+  (List.range (k * m)).map fun i =>
+    let c := i / m
+    let inside := ((List.range m).map (· + c * m)).filter (· != i)
+    let fwd := if c + 1 < k then [(c + 1) * m + i % m] else []
+    { isEnum := i % 3 == 2, fields := (inside ++ fwd).map fun j => CTy.seq (.node j) }
 
 /-- multiplicities 0..2 for each of the 4 edges of a 2-node graph; a double edge is written as two fields
     (different wrappers) or as one field with two leaves -/
@@ -197,19 +230,69 @@ def aliasS (p : Program) : String :=
 def aliasTargets (n code : Nat) : List (Option Nat) :=
   (List.range n).map fun i => let d := (code / (n + 1) ^ i) % (n + 1); if d == n then none else some d
 
+/-- underlying types for the alias-gate families. `code` selects a form and its leaves among `int32, A0 … A(n-1)`:
+    `X`, `Sequence<X>`, `Result<X, Y>`, `Dictionary<int32, Result<X, Y>>`, `Result<Sequence<X>, Dictionary<int32, Y>>` -/
+def aliasFormCount (n : Nat) : Nat := 2 * (n + 1) + 3 * (n + 1) * (n + 1)
+
+def aliasForm (n code : Nat) (maxLeaf : Nat := 1000) : TRef :=
+  let l := n + 1
+  -- `maxLeaf`: aliases with a larger number are replaced by the one with number `maxLeaf - 1` (or `int32`)
+  let leaf := fun (k : Nat) =>
+    let k := if k > maxLeaf then maxLeaf else k
+    if k == 0 then TRef.mk [] (.prim .int32) false else TRef.mk [] (.named (aliasName (k - 1))) false
+  let i32 : TRef := .mk [] (.prim .int32) false
+  if code < l then leaf code
+  else if code < 2 * l then .mk [] (.seq (leaf (code - l))) false
+  else
+    let c := code - 2 * l
+    let x := leaf (c % l)
+    let y := leaf (c / l % l)
+    match c / (l * l) with
+    | 0 => .mk [] (.result x y) false
+    | 1 => .mk [] (.dict i32 (.mk [] (.result x y) false)) false
+    | _ => .mk [] (.result (.mk [] (.seq x) false) (.mk [] (.dict i32 y) false)) false
+
+/-- `layers` layers of alias diamonds: `typealias A0 = Sequence<int32>`, `typealias Ak = Result<A(k-1), A(k-1)>` -/
+def aliasDiamonds (layers : Nat) : Program :=
+  [fileOf ((List.range layers).map fun k =>
+    if k == 0 then Def.alias [] [] (aliasName 0) (.mk [] (.seq (.mk [] (.prim .int32) false)) false)
+    else Def.alias [] [] (aliasName k)
+      (.mk [] (.result (.mk [] (.named (aliasName (k - 1))) false) (.mk [] (.named (aliasName (k - 1))) false)) false))]
+
+/-- one alias-gate case (projection `c05:alias`). When the patcher reports nothing the gate decides: E019 for exactly the
+    aliases `revisits_anonymous_type` answers true for. K line: that list differs from the declarative one (aliases from
+    which an alias lying on a loop of the alias graph is reachable). -/
+def emitAliasGate (o : Out) (fam : String) (p : Program) : IO Unit := do
+  let texts := textOf p
+  if e033Count p == 0 && (e019s p).isEmpty then
+    let errs := sortStrings (aliasGateErrors p)
+    if errs != sortStrings (anonLoopAliases p) then
+      o.line (tab ["K", "C05", fam, "|".intercalate (texts.map hexOfString), "revisits_anonymous_type model differs from the closure over the alias graph"])
+    o.line (compileCase fam "c05:alias" "-" texts ("E019=" ++ listS errs ++ ";E033=0;rejected=" ++ (if errs.isEmpty then "0" else "1")))
+  else
+    o.line (compileCase fam "c05:alias" "-" texts (aliasS p))
+
 /-! ## interfaces -/
 
 def ifaceName (i : Nat) : String := "I" ++ toString i
 
-def ifaceProgram (ig : IGraph) : Program :=
-  [fileOf (ig.zipIdx.map fun (bs, i) =>
-    Def.iface [] [] (ifaceName i) (bs.map fun b => .mk [] (.named (ifaceName b)) false)
-      [{ doc := [], attrs := [], idempotent := false, name := "op" ++ toString i, params := [], ret := .none : Op }])]
+def ifaceDef (ops : Bool) (i : Nat) (bs : List Nat) : Def :=
+  Def.iface [] [] (ifaceName i) (bs.map fun b => .mk [] (.named (ifaceName b)) false)
+    (if ops then [{ doc := [], attrs := [], idempotent := false, name := "op" ++ toString i, params := [], ret := .none : Op }] else [])
+
+/-- one file, interfaces in index order; `ops`: every interface has one operation of its own (when a loop is wrongly
+    accepted, the inherited operation then clashes with itself: the variant WITHOUT operations has no such second net) -/
+def ifaceProgram (ig : IGraph) (ops : Bool := true) : Program :=
+  [fileOf (ig.zipIdx.map fun (bs, i) => ifaceDef ops i bs)]
+
+/-- the interfaces in the order `order` (a permutation of the indices), split after `cut` definitions over two files
+    (one file when `cut = 0`) -/
+def ifaceProgramOrdered (ig : IGraph) (ops : Bool) (order : List Nat) (cut : Nat) : Program :=
+  let defs := order.map fun i => ifaceDef ops i (ig.getD i [])
+  if cut == 0 then [fileOf defs] else [fileOf (defs.take cut), fileOf (defs.drop cut)]
 
 def igraphOfMask (n mask : Nat) : IGraph :=
   (List.range n).map fun i => (List.range n).filter fun j => bit mask (i * n + j)
-
-def igEdges (ig : IGraph) : EdgeFn := fun i => (ig.getD i []).map fun b => (0, b)
 
 def inheritS (ig : IGraph) : String :=
   let n := ig.length
@@ -217,6 +300,142 @@ def inheritS (ig : IGraph) : String :=
     ifaceName i ++ "=" ++ (match allBases ig (n + 1) i with
       | some bs => "[" ++ ",".intercalate (bs.map ifaceName) ++ "]"
       | none => "fuel"))
+
+/-- `layers` layers of `width` interfaces, each inheriting every interface of the previous layer (layer 0 has no base);
+    the last layer comes first in the file when `rev` -/
+def layeredIGraph (layers width : Nat) : IGraph :=
+  (List.range (layers * width)).map fun i =>
+    if i < width then [] else (List.range width).map fun k => (i / width - 1) * width + k
+
+/-- observation of projection `c05:gate` -/
+def gateS (p : Program) (gm : Graph) (o : GateOutcome) : String :=
+  let inames := (ifaceDefs p).map (·.1)
+  "E019=" ++ listS (sortStrings o.aliasErrors) ++
+  ";IFACE=" ++ listS (sortStrings (o.ifaceErrors.map fun e => inames.getD e.1 "?")) ++
+  ";E032=" ++ listS (sortStrings (o.reports.map (reportS gm))) ++ " oracle=ok"
+
+/-- plain identifiers of the interfaces of a program in AST order -/
+def ifaceIdents (p : Program) : List String :=
+  p.flatMap fun f => f.defs.filterMap fun d => match d with | .iface _ _ name _ _ => some name | _ => none
+
+/-- observation of projection `c05:inherit` for a program, from the model: the gate's interface errors (one E032 per
+    interface that inherits from itself) or the base lists in AST order -/
+def inheritObs (p : Program) : String :=
+  let igm := igraphOfProgram p
+  let names := ifaceIdents p
+  let errs := ifaceLoopErrors igm
+  if errs.isEmpty then
+    "accepted:" ++ "|".intercalate ((List.range igm.length).map fun i =>
+      names.getD i "?" ++ "=" ++ (match allBases igm (igm.length + 1) i with
+        | some bs => "[" ++ ",".intercalate (bs.map fun b => names.getD b "?") ++ "]"
+        | none => "fuel"))
+  else "rejected:" ++ "|".intercalate (sortStrings (errs.map fun e => "E032@" ++ names.getD e.1 "?"))
+
+/-- one inheritance case (projection `c05:inherit`: WHICH interfaces are reported, or the base lists in order).
+    `ig` is the generated graph over the indices in the names (`I<k>`), `p` the program (any definition order, one or two
+    files). K lines: the model's graph is not the generated one (up to the order of definitions); the model's flagged set
+    is not the set of interfaces that reach themselves (`inheritance_loop_rejected`); a reported chain is not a closed chain;
+    `allBases` runs out of fuel (`allBases_total`); `allBases` differs from the old definition where that one returns
+    (`allBases_eq_spec`, checked when `checkSpec`: the old definition is exponential on layered graphs) -/
+def emitIProgram (o : Out) (fam : String) (ig : IGraph) (p : Program) (checkSpec : Bool := true) : IO Unit := do
+  let texts := textOf p
+  let hex := "|".intercalate (texts.map hexOfString)
+  let igm := igraphOfProgram p
+  let n := igm.length
+  let names := ifaceIdents p
+  -- the model's graph, translated back to the indices in the names
+  let idxOfName := fun (s : String) => (s.drop 1).toNat!
+  let back := (List.range ig.length).map fun k =>
+    match names.idxOf? (ifaceName k) with
+    | some pos => (igm.getD pos []).map fun b => idxOfName (names.getD b "I0")
+    | none => []
+  if back != ig || n != ig.length then
+    o.line (tab ["K", "C05", fam, hex, "igraphOfProgram differs from the generated inheritance graph"])
+  let flagged := (ifaceLoopErrors igm).map (·.1)
+  if flagged != onCycle (igEdges igm) n then
+    o.line (tab ["K", "C05", fam, hex, "the flagged interfaces are not the interfaces that inherit from themselves"])
+  if (ifaceLoopErrors igm).any (fun e => !(chainOk (igEdges igm) e.1 e.1 ((e.2.zip (e.2.drop 1)).map fun ab => ⟨ab.2, ab.1, 0⟩))) then
+    o.line (tab ["K", "C05", fam, hex, "a reported inheritance chain is not a closed path of bases"])
+  if (List.range n).any (fun i => (allBases igm (n + 1) i).isNone) then
+    o.line (tab ["K", "C05", fam, hex, "allBases ran out of fuel"])
+  if checkSpec && (List.range n).any (fun i => match allBasesSpec igm (n + 1) i with | some l => allBases igm (n + 1) i != some l | none => false) then
+    o.line (tab ["K", "C05", fam, hex, "allBases differs from the definition before 323593c"])
+  o.line (compileCase fam "c05:inherit" "-" texts (inheritObs p))
+
+/-- the graph in index order in one file, in both variants: with one operation per interface, and without operations -/
+def emitIGraph (o : Out) (fam : String) (ig : IGraph) (checkSpec : Bool := true) : IO Unit := do
+  emitIProgram o fam ig (ifaceProgram ig true) checkSpec
+  emitIProgram o (fam ++ "-noops") ig (ifaceProgram ig false) checkSpec
+
+/-- random inheritance graph on `n` interfaces: `density`/8 of the forward pairs, plus `back` backward edges -/
+def genIGraph (n : Nat) (r : Rng) : IGraph × Rng := Id.run do
+  let mut r := r
+  let (density, r0) := r.below 7
+  let (back, r1) := r0.below 4
+  r := r1
+  let mut ig : IGraph := []
+  for i in [0:n] do
+    let mut bs : List Nat := []
+    for j in [0:n] do
+      let (c, r2) := r.below 8
+      r := r2
+      -- bases are written in a scrambled order so that the order of the result matters
+      if j < i && c ≤ density then bs := if c % 2 == 0 then bs ++ [j] else j :: bs
+    ig := ig ++ [bs]
+  for _ in [0:(if back ≥ 2 then back - 1 else 0)] do
+    let (i, r3) := r.below n
+    let (j, r4) := r3.below n
+    r := r4
+    if i ≤ j then ig := ig.set i (ig.getD i [] ++ (if (ig.getD i []).contains j then [] else [j]))
+  return (ig, r)
+
+/-- a ring of 1..4 interfaces, the other interfaces inherit from ring members and from each other (acyclically), now
+    and then a ring member inherits from one of them too; returns the graph and a random order of its definitions -/
+def genLoopTailGraph (n : Nat) (r : Rng) : (IGraph × List Nat) × Rng := Id.run do
+  let mut r := r
+  let (l0, r0) := r.below 4
+  r := r0
+  let l := min (l0 + 1) (n - 1)
+  -- a random permutation: positions → indices
+  let mut order : List Nat := []
+  for i in [0:n] do
+    let (k, r1) := r.below (order.length + 1)
+    r := r1
+    order := order.take k ++ [i] ++ order.drop k
+  -- ring members: the first `l` entries of a second permutation
+  let mut perm : List Nat := []
+  for i in [0:n] do
+    let (k, r1) := r.below (perm.length + 1)
+    r := r1
+    perm := perm.take k ++ [i] ++ perm.drop k
+  let ring := perm.take l
+  let others := perm.drop l
+  let mut ig : IGraph := (List.range n).map fun _ => []
+  for k in [0:l] do
+    ig := ig.set (ring.getD k 0) [ring.getD ((k + 1) % l) 0]
+  for k in [0:others.length] do
+    let x := others.getD k 0
+    let mut bs : List Nat := []
+    for c in ring ++ others.take k do
+      let (d, r1) := r.below 3
+      r := r1
+      if d == 0 then bs := bs ++ [c]
+    -- most of them reach the ring
+    let (d, r1) := r.below 4
+    r := r1
+    if bs.isEmpty && d != 0 then bs := [ring.getD (d % l) 0]
+    ig := ig.set x bs
+  let (d, r1) := r.below 4
+  r := r1
+  if d == 0 && !others.isEmpty then
+    let m := ring.getD 0 0
+    ig := ig.set m (ig.getD m [] ++ [others.getD (others.length - 1) 0])
+  return ((ig, order), r)
+
+/-- one case for the whole gate: aliases (possibly looping through an anonymous type), interfaces, structs -/
+def emitGate (o : Out) (fam : String) (p : Program) : IO Unit := do
+  let gm := graphOfProgram p
+  o.line (compileCase fam "c05:gate" "-" (textOf p) (gateS p gm (gateOfProgram p)))
 
 /-! ## the stream -/
 
@@ -243,9 +462,21 @@ def gen (tier : Tier) (seed : Nat) (o : Out) : IO Unit := do
   for code in [0:81] do
     for w in [0:6] do
       emitGraph o "multi" (multiGraph code w)
-  -- dense DAGs: the detector's running time doubles with every struct (D-05b)
-  for n in [1:(if thorough then 19 else 17)] do
-    emitGraph o ("dense-" ++ toString n) (denseGraph n)
+  -- dense DAGs (the D-05b family; since dd206d7 one step per edge): every size up to 16, then 28, 40 (thorough: 60 too).
+  -- The detector without the skip rule takes 2^n steps on them, so it is only run as a cross-check up to 12 structs
+  for n in [1:17] do
+    emitGraph o ("dense-" ++ toString n) (denseGraph n) (checkSpec := n ≤ 12)
+  for n in (if thorough then [28, 40, 60] else [28, 40]) do
+    emitGraph o ("dense-" ++ toString n) (denseGraph n) (checkSpec := false)
+  -- complete digraphs (erroneous programs; every simple cycle through every root is enumerated: D-05d) while affordable,
+  -- and chains of small complete digraphs (many short cycles, polynomial)
+  for n in [2:(if thorough then 8 else 7)] do
+    emitGraph o ("complete-" ++ toString n) (completeGraph n)
+  -- the dense DAG closed by one back edge: everything contains S0, 2^n steps from there (still D-05d); small sizes only
+  for n in (if thorough then [2, 3, 4, 8, 12, 14] else [2, 3, 4, 8, 12]) do
+    emitGraph o ("denseback-" ++ toString n) (denseBackGraph n) (checkSpec := n ≤ 12)
+  for km in (if thorough then [(2, 3), (3, 3), (4, 4), (6, 4), (10, 3)] else [(2, 3), (3, 3), (4, 4)]) do
+    emitGraph o ("clusters-" ++ toString km.1 ++ "x" ++ toString km.2) (clustersGraph km.1 km.2) (checkSpec := km.1 * km.2 ≤ 12)
   -- random graphs ≤ 10 nodes, mixed wrappers, multi-edges, mixed struct/enum nodes
   let mut r := Rng.mk' (seed + 5)
   for _ in [0:(if thorough then 20000 else 2000)] do
@@ -289,30 +520,131 @@ def gen (tier : Tier) (seed : Nat) (o : Out) : IO Unit := do
               ("E019=" ++ listS (sortStrings (anonLoopAliases p)) ++ ";E033=0;rejected=1")]
           else
             o.line (compileCase ("alias-anon-" ++ toString n) "c05:alias" "-" (textOf p) (aliasS p))
-  -- inheritance graphs: every graph on ≤ 3 (thorough 4) interfaces; acyclic ones are accepted with the model's base lists
-  let mut inheritLoops : List String := []
+  let a0 : TRef := .mk [] (.named "A0") false
+  let i32 : TRef := .mk [] (.prim .int32) false
+  -- the alias gate (`revisits_anonymous_type`): aliases of anonymous types mentioned once, twice (diamonds: must be
+  -- ACCEPTED) or by themselves (must get E019). A catalogue, then every pair of aliases over 5 forms × all leaves, with and
+  -- without a struct that uses them, then sampled triples
+  let str : TRef := .mk [] (.prim .string) false
+  let nm := fun (s : String) => TRef.mk [] (.named s) false
+  let al := fun (name : String) (ty : TyExpr) => Def.alias [] [] name (.mk [] ty false)
+  for defs in ([
+      -- the coordinator's witness: a diamond through an alias of an anonymous type
+      [al "Names" (.seq str), al "Pair" (.result (nm "Names") (nm "Names")), Def.struct [] [] false "S" [mkField "p" (nm "Pair")]],
+      [al "A" (.seq i32), al "D" (.dict i32 (.mk [] (.result (nm "A") (nm "A")) false))],
+      [al "A" (.seq i32), al "P" (.result (.mk [] (.seq (nm "A")) false) (.mk [] (.dict i32 (nm "A")) false))],
+      [al "A" (.seq i32), al "B" (.result (nm "A") (nm "A")), al "C" (.result (nm "B") (nm "B")),
+       al "D" (.dict i32 (.mk [] (.result (nm "C") (nm "C")) false)), Def.struct [] [] false "S" [mkField "a" (nm "D"), mkField "b" (nm "D")]],
+      [al "N" (.seq str), al "N2" (.named "N"), al "P" (.result (nm "N") (nm "N2"))],
+      [al "N" (.seq str), Def.struct [] [] false "S" [mkField "a" (nm "N"), mkField "b" (nm "N"), mkField "c" (.mk [] (.result (nm "N") (nm "N")) false)]],
+      -- used before it is defined
+      [al "P" (.result (nm "N") (nm "N")), al "N" (.seq str)],
+      -- genuinely self-containing ones
+      [al "A" (.result (nm "A") (nm "A"))],
+      [al "A" (.seq i32), al "B" (.result (nm "A") (nm "B"))],
+      [al "A" (.result (nm "B") (nm "B")), al "B" (.seq (nm "A"))],
+      [al "N" (.seq str), al "P" (.result (nm "N") (.mk [] (.seq (nm "P")) false))],
+      [al "N" (.seq str), al "P" (.result (nm "N") (.mk [] (.seq (nm "P")) false)), al "U" (.result (nm "N") (nm "P"))],
+      [al "N" (.seq str), al "P" (.result (nm "N") (.mk [] (.seq (nm "P")) false)), al "U" (.result (nm "N") (nm "N"))],
+      [al "A" (.dict i32 (.mk [] (.result (nm "B") (nm "B")) false)), al "B" (.named "C"), al "C" (.seq (nm "A"))]]
+      : List (List Def)) do
+    emitAliasGate o "alias-gate-catalogue" [fileOf defs]
+  -- layered diamonds of aliases (valid): the gate walks every path, 2^layers steps (D-05f); small ones here, with the
+  -- model run in full; the 28-layer one is the known finding at the end of the stream
+  for k in [2, 3, 6, 10, 14] do
+    emitAliasGate o ("alias-diamond-" ++ toString k) (aliasDiamonds k)
+  for c0 in [0:aliasFormCount 2] do
+    for c1 in [0:aliasFormCount 2] do
+      let defs := [Def.alias [] [] "A0" (aliasForm 2 c0), Def.alias [] [] "A1" (aliasForm 2 c1)]
+      emitAliasGate o "alias-gate-2" [fileOf defs]
+      emitAliasGate o "alias-gate-2" [fileOf (defs ++ [Def.struct [] [] false "U" [mkField "x" (nm "A1"), mkField "y" (nm "A1")]])]
+  let mut ra := Rng.mk' (seed + 91)
+  for _ in [0:(if thorough then 15000 else 1500)] do
+    let (c0, r0) := ra.below (aliasFormCount 3)
+    let (c1, r1) := r0.below (aliasFormCount 3)
+    let (c2, r2) := r1.below (aliasFormCount 3)
+    let (u, r3) := r2.below 4
+    let (fwd, r4) := r3.below 3
+    ra := r4
+    -- two thirds refer to earlier aliases only (diamonds, no loop), in forward or backward definition order
+    let defs := if fwd == 0 then [Def.alias [] [] "A0" (aliasForm 3 c0), Def.alias [] [] "A1" (aliasForm 3 c1), Def.alias [] [] "A2" (aliasForm 3 c2)]
+      else
+        let ds := [Def.alias [] [] "A0" (aliasForm 3 c0 0), Def.alias [] [] "A1" (aliasForm 3 c1 1), Def.alias [] [] "A2" (aliasForm 3 c2 2)]
+        if fwd == 1 then ds else ds.reverse
+    let useDef := if u == 3 then [] else [Def.struct [] [] false "U" [mkField "x" (nm (aliasName u)), mkField "y" (.mk [] (.result (nm (aliasName u)) (nm "A0")) false)]]
+    emitAliasGate o "alias-gate-3" [fileOf (defs ++ useDef)]
+  -- inheritance graphs: every graph on ≤ 3 (thorough 4) interfaces, each WITHOUT operations and with one operation per
+  -- interface (thorough, 4 interfaces, with operations: loops sampled 1/16). Acyclic ones are accepted with the model's base
+  -- lists, the others are rejected with one E032 for each interface that reaches itself. All definition orders are
+  -- covered by exhaustiveness.
   for n in [1:(if thorough then 5 else 4)] do
     for mask in [0:2 ^ (n * n)] do
       let ig := igraphOfMask n mask
       let loops := !(onCycle (igEdges ig) n).isEmpty
-      if !loops then
-        o.line (compileCase ("inherit-dag-" ++ toString n) "c05:inherit" "-" (textOf (ifaceProgram ig)) (inheritS ig))
-      else if n ≤ 3 || mask % 64 == 21 then
-        -- loops must be rejected (they overflow the stack instead: D-05a): every loop on ≤ 3 interfaces, a sample on 4
-        inheritLoops := inheritLoops ++ [compileCase "inherit-loop" "c05:inherit" "-" (textOf (ifaceProgram ig)) "rejected"]
-  /- known findings last (the runner prints only the first 200 DIFF lines of a run) -/
-  -- 2^28 steps: longer than the 20 s watchdog of the engine; expected = what the property demands of an acyclic graph
-  emitGraph o "dense-28" (denseGraph 28) (runModel := false)
-  -- Sequence / Dictionary-value self-loops become a tail-call loop and hang (20 s each): thorough only
+      let fam := if loops then "inherit-loop" else "inherit-dag-" ++ toString n
+      emitIProgram o (fam ++ "-noops") ig (ifaceProgram ig false)
+      if !loops || n ≤ 3 || mask % 16 == 5 then emitIProgram o fam ig (ifaceProgram ig true)
+  -- loops of several shapes: self loop; rings of 2, 3, 50; a loop reachable from an interface that is not on it; a loop
+  -- with a tail leading out of it; two loops sharing an interface; a diamond above a loop; two disjoint loops
+  for ig in ([[[0]], [[1], [0]], [[1], [2], [0]], (List.range 50).map (fun i => [(i + 1) % 50]),
+              [[1], [2], [1]], [[1], [2], [3], [2]], [[1, 2], [2], [1]], [[1], [2], [1], [0], [2]], [[1], [0, 2], []], [[1, 2], [0], [0]],
+              [[1, 2], [3], [3], [4], [3]], [[1], [0], [3], [2]], [[], [0, 1], [1, 0]],
+              [[1], [2], [3], [4], [5], [2], [0]]] : List IGraph) do
+    emitIGraph o "inherit-loop-shapes" ig
+  -- layered diamonds: every interface of a layer inherits every interface of the previous one. Before 323593c each
+  -- interface was expanded once per inheritance path: 26 layers of 2 interfaces did not compile within minutes
+  for lw in (if thorough then [(3, 2), (4, 3), (10, 2), (26, 2), (40, 2), (12, 4), (60, 3)] else [(3, 2), (4, 3), (10, 2), (26, 2), (40, 2)]) do
+    emitIGraph o ("layered-" ++ toString lw.1 ++ "x" ++ toString lw.2) (layeredIGraph lw.1 lw.2) (checkSpec := lw.1 ≤ 10)
+    -- the same with the last layer first in the file
+    let n := lw.1 * lw.2
+    emitIProgram o ("layered-" ++ toString lw.1 ++ "x" ++ toString lw.2 ++ "-rev") (layeredIGraph lw.1 lw.2)
+      (ifaceProgramOrdered (layeredIGraph lw.1 lw.2) false ((List.range n).reverse) 0) (checkSpec := lw.1 ≤ 10)
+  -- random inheritance graphs on ≤ 9 interfaces, a third of them with 1-2 backward edges (loops)
+  let mut ri := Rng.mk' (seed + 77)
+  for _ in [0:(if thorough then 6000 else 600)] do
+    let (n, r1) := ri.below 9
+    let (ig, r2) := genIGraph (n + 1) r1
+    ri := r2
+    emitIGraph o "inherit-rand" ig
+  -- 5..8 interfaces: a ring and interfaces that are not on it but inherit from it, in a random definition order (so that
+  -- the non-loop interfaces come before, between and after the loop members), in one file and split over two files in
+  -- both file orders; without operations (3 layouts) and with operations (1 layout)
+  for _ in [0:(if thorough then 3000 else 300)] do
+    let (n, r1) := ri.below 4
+    let ((ig, order), r2) := genLoopTailGraph (n + 5) r1
+    let (cut, r3) := r2.below (n + 4)
+    ri := r3
+    let cut := cut + 1
+    emitIProgram o "inherit-tails" ig (ifaceProgramOrdered ig false order 0)
+    emitIProgram o "inherit-tails-2files" ig (ifaceProgramOrdered ig false order cut)
+    emitIProgram o "inherit-tails-2files" ig (ifaceProgramOrdered ig false (order.drop cut ++ order.take cut) (n + 5 - cut))
+    emitIProgram o "inherit-tails-ops" ig (ifaceProgramOrdered ig true order cut)
+  -- the three gates together: {no alias loop, alias looping through an anonymous type} × {no interface, DAG, loop,
+  -- loop below a non-loop interface} × {no struct cycle, self cycle, 2-cycle + acyclic struct}: the alias gate returns
+  -- alone, the interface gate does not stop the containment detector
+  for adefs in ([[], [Def.alias [] [] "A0" i32], [Def.alias [] [] "A0" (.mk [] (.result a0 i32) false)]] : List (List Def)) do
+    for ig in ([[], [[], [0]], [[1], [0]], [[1], [2], [1]], [[0], []]] : List IGraph) do
+      for g in ([[], [⟨false, [.terminal]⟩], [⟨false, [.opt (.node 0)]⟩],
+                 [⟨false, [.node 1]⟩, ⟨true, [.seq (.node 0)]⟩, ⟨false, [.node 1]⟩]] : List GSpec) do
+        let idefs := match ifaceProgram ig with | [f] => f.defs | _ => []
+        let gdefs := match programOfGraph g with | [f] => f.defs | _ => []
+        emitGate o "gate-order" [fileOf (adefs ++ idefs ++ gdefs)]
+        emitGate o "gate-order" [fileOf (gdefs ++ idefs ++ adefs)]
+  -- Sequence / Dictionary-value self-loops of an alias (repaired D-05c; they used to hang): thorough only
   if thorough then
-    let a0 : TRef := .mk [] (.named "A0") false
-    let i32 : TRef := .mk [] (.prim .int32) false
     for defs in [[Def.alias [] [] "A0" (.mk [] (.seq a0) false)],
                  [Def.alias [] [] "A0" (.mk [] (.dict i32 a0) false), Def.struct [] [] false "U" [mkField "x" a0]]] do
       anonLoops := anonLoops ++ [compileCase "alias-anon-loop" "c05:alias" "-" (textOf [fileOf defs])
         ("E019=" ++ listS (sortStrings (anonLoopAliases [fileOf defs])) ++ ";E033=0;rejected=1")]
   for l in anonLoops do o.line l
-  for l in inheritLoops do o.line l
+  /- known findings last (the runner prints only the first 200 DIFF lines of a run); each costs the 20 s watchdog -/
+  -- D-05d: the complete digraph on 11 structs; every simple cycle through the root is enumerated, no verdict within the
+  -- 20 s watchdog of the engine. Expected = the model's verdict (`rejected`, by exactness); the detector model is not run
+  emitVerdict o "known-d05b-complete" (completeGraph 11)
+  -- D-05f: 28 layers of alias diamonds (valid, 0.9 KB): `revisits_anonymous_type` walks 2^28 paths. Expected = accepted, from
+  -- the declarative closure over the alias graph (`revisits` of the model is as exponential as the code and is not run)
+  o.line (compileCase "known-d05f-alias-diamond" "c05:alias" "-" (textOf (aliasDiamonds 28))
+    ("E019=" ++ listS (sortStrings (anonLoopAliases (aliasDiamonds 28))) ++ ";E033=0;rejected=0"))
 
 end Slicec.Drv.C05
 
